@@ -182,6 +182,8 @@ const (
 	kWhen = "When" // When(e1..en)
 	kIn   = "In"   // In([e..], [e..]) with []interface{} alternatives (bare values for one-parameter functions)
 	kInT  = "InT"  // In([]int{..}, []int{..}): typed slices, (...T) signatures only, plain values only
+	kInM  = "InM"  // In(e, p1, p2, p3, p4): a long candidate list for one-parameter functions; the four
+	// padding literals are written like the atoms (plain int / string literals) and never passed by a call
 )
 
 // Clause is one condition; When has exactly one alternative.
@@ -193,7 +195,7 @@ type Clause struct {
 // Config is a well-formed stub configuration: optional default first, then the clauses. Clause i
 // returns resBase+i, the default returns dflt.
 type Config struct {
-	Default bool     `json:"default"`
+	Default bool `json:"default"`
 	// DefaultTwice: the default is configured by two Return calls (the documented way to build a
 	// default sequence; both carry the same value so the expected result does not depend on a cursor)
 	DefaultTwice bool     `json:"default_twice,omitempty"`
@@ -235,6 +237,15 @@ func (s *sigSpec) callArgs(call []int) []interface{} {
 		a[j] = dom[s.ptypeAt(j)][v]
 	}
 	return a
+}
+
+// pads are four further candidates of an InM clause: literals of the type the atoms are written in,
+// different from every value a call passes.
+func (s *sigSpec) pads() []interface{} {
+	if s.ptypeAt(0) == tStr {
+		return []interface{}{"p1", "p2", "p3", "p4"}
+	}
+	return []interface{}{1001, 1002, 1003, 1004}
 }
 
 func (s *sigSpec) altArg(kind string, alt []int) interface{} {
@@ -301,6 +312,9 @@ func (s *sigSpec) install(b *mocker.Builder, cfg *Config) (w *mocker.When, ops i
 			alts := make([]interface{}, len(cl.Alts))
 			for k, alt := range cl.Alts {
 				alts[k] = s.altArg(cl.Kind, alt)
+			}
+			if cl.Kind == kInM {
+				alts = append(alts, s.pads()...)
 			}
 			w = w.In(alts...).Return(resBase + i)
 		}
@@ -427,12 +441,12 @@ func (v verdict) same(w verdict) bool { return v.kind == w.kind && v.via == w.vi
 
 // result of running one configuration
 type runResult struct {
-	cfgPanic      string
-	ops           int
-	matched       bool      // the implementation selected a clause result for at least one call
-	verdicts      []verdict // one per call (kind "" = conforms); empty if the configuration panicked
-	calls         int
-	evalOdd int // Eval of a method/variadic stub that differs from the reference (recorded, not judged)
+	cfgPanic string
+	ops      int
+	matched  bool      // the implementation selected a clause result for at least one call
+	verdicts []verdict // one per call (kind "" = conforms); empty if the configuration panicked
+	calls    int
+	evalOdd  int // Eval of a method/variadic stub that differs from the reference (recorded, not judged)
 }
 
 type callT struct {
@@ -562,6 +576,12 @@ func (s *sigSpec) render(cfg *Config) string {
 			a := make([]string, len(cl.Alts))
 			for k, alt := range cl.Alts {
 				a[k] = "[]int{" + s.renderAlt(cl.Kind, alt) + "}"
+			}
+			fmt.Fprintf(&sb, ".In(%s)", strings.Join(a, ", "))
+		case kInM:
+			a := []string{s.renderAlt(cl.Kind, cl.Alts[0])}
+			for _, p := range s.pads() {
+				a = append(a, fmt.Sprintf("%#v", p))
 			}
 			fmt.Fprintf(&sb, ".In(%s)", strings.Join(a, ", "))
 		}
@@ -833,7 +853,7 @@ func (s *sigSpec) candidates(cfg *Config, ct *callT) []cand {
 		for k, a := range cl.Alts {
 			for p, at := range a {
 				for lower := 0; lower < at; lower++ {
-					if cl.Kind == kInT && lower > aB {
+					if (cl.Kind == kInT || cl.Kind == kInM) && lower > aB {
 						continue
 					}
 					n := cloneCfg(cfg)
@@ -934,6 +954,11 @@ func (s *sigSpec) alphabet(name string) []Clause {
 			for _, u := range plain {
 				out = append(out, Clause{kIn, [][]int{t, u}})
 			}
+		}
+	}
+	if !s.variadic() && len(s.fixed) == 1 && !s.method {
+		for _, t := range plain {
+			out = append(out, Clause{kInM, [][]int{t}})
 		}
 	}
 	if s.variadic() && len(s.fixed) == 0 {
